@@ -10,6 +10,7 @@ theorem verdict : (classify Generated.factsC03).Sound (Holds (cfgOf Generated.fa
 #print axioms verdict
 #print axioms compact_preserves
 #print axioms compact_preserves_torn
+#print axioms compaction_anywhere
 #print axioms compact_stale_temp_resurrects
 #print axioms not_preserves_of_stale
 #print axioms compact_crash_atomic
